@@ -14,17 +14,21 @@
 (* C18-late-link).                                                         *)
 (***************************************************************************)
 EXTENDS Integers, Sequences, FiniteSets, TLC
-CONSTANTS Procs, Names, Clients, MaxOps, NamesSurviveExit, Sequential
+CONSTANTS Procs, Names, Clients, MaxOps, NamesSurviveExit, Sequential,
+          OpKinds,     \* the client operations in play (generator configurations focus on a subset)
+          PreSpawn     \* TRUE: every process has been spawned before the first counted operation
 None == "none"
 VARIABLES byPid, byName, mbox, phase, links, mons, snap, handled, notices, pc, tmp, nops, nextMsg, nextRef, hist
 vars == <<byPid, byName, mbox, phase, links, mons, snap, handled, notices, pc, tmp, nops, nextMsg, nextRef, hist>>
-Init == /\ byPid = {} /\ byName = [n \in Names |-> None]
-        /\ mbox = [p \in Procs |-> <<>>] /\ phase = [p \in Procs |-> "unborn"]
+RECURSIVE SpawnOps(_)
+SpawnOps(S) == IF S = {} THEN <<>> ELSE LET p == CHOOSE p \in S : TRUE IN <<<<"spawn", p, "", "ok">>>> \o SpawnOps(S \ {p})
+Init == /\ byPid = (IF PreSpawn THEN Procs ELSE {}) /\ byName = [n \in Names |-> None]
+        /\ mbox = [p \in Procs |-> <<>>] /\ phase = [p \in Procs |-> IF PreSpawn THEN "running" ELSE "unborn"]
         /\ links = [p \in Procs |-> {}] /\ mons = [p \in Procs |-> {}]
         /\ snap = [p \in Procs |-> {}] /\ handled = [p \in Procs |-> <<>>]
         /\ notices = [p \in Procs |-> <<>>]
         /\ pc = [c \in Clients |-> "idle"] /\ tmp = [c \in Clients |-> None]
-        /\ nops = 0 /\ nextMsg = 1 /\ nextRef = 1 /\ hist = <<>>
+        /\ nops = 0 /\ nextMsg = 1 /\ nextRef = 1 /\ hist = (IF PreSpawn THEN SpawnOps(Procs) ELSE <<>>)
 \* a process is busy while it has work in its mailbox or is on its way out
 Busy(p) == (phase[p] = "running" /\ mbox[p] # <<>>) \/ phase[p] \in {"failed", "notify_links", "snap_mons", "notify_mons", "removing"}
 Quiet == \A p \in Procs : ~Busy(p)
@@ -108,10 +112,12 @@ NotifyMons(p) == /\ phase[p] = "notify_mons"
 Remove(p) == /\ phase[p] = "removing" /\ byPid' = byPid \ {p} /\ phase' = [phase EXCEPT ![p] = "gone"]
              /\ byName' = IF NamesSurviveExit THEN byName ELSE [n \in Names |-> IF byName[n] = p THEN None ELSE byName[n]]
              /\ UNCHANGED <<mbox, links, mons, snap, handled, notices, pc, tmp, nops, nextMsg, nextRef, hist>>
-ClientStep(c) == \/ \E p \in Procs : Spawn(c, p) \/ Send(c, p, TRUE) \/ Send(c, p, FALSE)
-                 \/ \E n \in Names : Unregister(c, n) \/ Whereis(c, n) \/ \E p \in Procs : Register(c, n, p)
+On(k) == k \in OpKinds
+ClientStep(c) == \/ \E p \in Procs : (On("spawn") /\ Spawn(c, p)) \/ (On("kill") /\ Send(c, p, TRUE)) \/ (On("send") /\ Send(c, p, FALSE))
+                 \/ \E n \in Names : (On("unregister") /\ Unregister(c, n)) \/ (On("send_name") /\ Whereis(c, n)) \/ \E p \in Procs : (On("register") /\ Register(c, n, p))
                  \/ SendResolved(c) \/ Link2(c)
-                 \/ \E a, b \in Procs : Link1(c, a, b) \/ Unlink(c, a, b) \/ Monitor(c, a, b) \/ \E r \in 1..4 : Demonitor(c, a, b, r)
+                 \/ \E a, b \in Procs : (On("link") /\ Link1(c, a, b)) \/ (On("unlink") /\ Unlink(c, a, b)) \/ (On("monitor") /\ Monitor(c, a, b))
+                                         \/ \E r \in 1..4 : (On("demonitor") /\ Demonitor(c, a, b, r))
 ProcStep(p) == Handle(p) \/ SnapLinks(p) \/ NotifyLinks(p) \/ SnapMons(p) \/ NotifyMons(p) \/ Remove(p)
 Next == (\E c \in Clients : ClientStep(c)) \/ (\E p \in Procs : ProcStep(p))
 Spec == Init /\ [][Next]_vars
